@@ -123,6 +123,25 @@ func (e *Env) buildConcPlan(id int) *c12proc {
 		add(plan.Op{Fn: "chk", L: int64([]int{-1, 10, 100}[r.Intn(3)]), S: hxs("abandon abandon abandon")})
 		p.conc.Workers = append(p.conc.Workers, ops)
 	}
+	if id%3 == 2 || id%8 == 5 {
+		// a sequential history before the goroutines start: failing and odd calls
+		pre := []plan.Op{
+			{Fn: "new", L: int64(r.Intn(ref.NLang)), N: int64(ref.WordCounts[r.Intn(5)]), Src: &plan.Src{Data: hx(r.Bytes(5))}},
+			{Fn: "new", L: int64(r.Intn(ref.NLang)), N: 24, Src: &plan.Src{Data: hx(r.Bytes(40)), Steps: []plan.Step{{N: 7, E: []string{"custom", "eintr", "eof"}[r.Intn(3)]}}}},
+			{Fn: "new", L: 2, N: 13},
+			{Fn: "enc", L: int64(r.Intn(ref.NLang)), E: hx(r.Bytes(17))},
+			{Fn: "chk", L: 100, S: hxs("abandon abandon abandon abandon abandon abandon abandon abandon abandon abandon abandon about")},
+			{Fn: "chk", L: int64(p.langs[0]), S: hxs("qzx qzx qzx qzx qzx qzx qzx qzx qzx qzx qzx qzx")},
+			{Fn: "str", L: -3},
+			{Fn: "seed", S: hxs("x"), P: hxs("y")},
+		}
+		n := 1 + r.Intn(len(pre))
+		for i, k := range r.Perm(len(pre))[:n] {
+			op := pre[k]
+			op.I = i
+			p.conc.Pre = append(p.conc.Pre, op)
+		}
+	}
 	if useShared {
 		sharedData = r.Bytes(sharedNeed)
 		p.shared = sharedData
@@ -195,6 +214,10 @@ func (e *Env) buildStressPlan(id, loops int) *c12proc {
 			ops[i].I = i
 		}
 		p.conc.Workers = append(p.conc.Workers, ops)
+	}
+	if id%2 == 1 {
+		// a failed NewMnemonic (short source) before the goroutines start
+		p.conc.Pre = []plan.Op{{I: 0, Fn: "new", L: int64(l1), N: 24, Src: &plan.Src{Data: hx(r.Bytes(9))}}, {I: 1, Fn: "new", L: int64(l2), N: 11}}
 	}
 	p.langs = []int{l1, l2}
 	return p
@@ -293,6 +316,19 @@ func checkC12(e *Env) {
 		byWorker := make([][]plan.Res, len(p.conc.Workers))
 		var aggregated []plan.Res
 		for _, r := range cr.Results {
+			if r.G == -1 {
+				op := &p.conc.Pre[r.I]
+				if r.Panic != "" {
+					viol(fmt.Sprintf("sequential call %d %s before the goroutines started panicked: %s", r.I, fnName(op.Fn), oneLine(r.Panic, 300)), r)
+					return
+				}
+				if why := e.judgeAgainstRef(op, &r, e.refEval(op)); why != "" {
+					viol(fmt.Sprintf("sequential call %d %s before the goroutines started: %s", r.I, fnName(op.Fn), why), map[string]any{"op": op, "observed": r})
+					return
+				}
+				obs.Inc("sequential_history_calls_before_the_barrier")
+				continue
+			}
 			if r.Agg > 0 {
 				aggregated = append(aggregated, r)
 				continue
@@ -488,7 +524,7 @@ func checkC12(e *Env) {
 	e.WriteEvidence("exploration", map[string]any{
 		"evaluations":                   totalOps,
 		"distinct_nontrivial":           states.Len(),
-		"rule":                          "a case is one cold-start process: G in {2,4,8,16,64} goroutines released by one barrier run seed-chosen op lists (CheckMnemonic/IsMnemonicValid on a contended subset of languages, every language at least twice per goroutine, mixed with NewMnemonicByEntropy, NewMnemonic on the default source or on a shared mutex-protected scripted source installed before the goroutines start, MnemonicToSeed, Language.String, unsupported languages), GOMAXPROCS in {1,2,4,16}, half of the processes with simultaneous first uses and half with staggered late first users; plus stress processes in which 8-16 goroutines repeat a small shared pool of calls 120-4000 times (the same sentence validated under its own language and queried under another, identical seed arguments, the same entropy under several languages, the same unsupported Language values), every distinct observation of which is compared with the reference; oracles: Go race detector (reports read from log files, de-duplicated by stack signature), per-call reference model, exactly-once accounting of shared-source bytes per goroutine, and sequential replay of the same op lists in another fresh process; non-trivial and distinct = distinct (language, cold-overlap degree, goroutine count, staggered) states observed, where the overlap degree is the number of goroutines whose first call on the language began before the first such call returned",
+		"rule":                          "a case is one cold-start process: G in {2,4,8,16,64} goroutines released by one barrier run seed-chosen op lists (CheckMnemonic/IsMnemonicValid on a contended subset of languages, every language at least twice per goroutine, mixed with NewMnemonicByEntropy, NewMnemonic on the default source or on a shared mutex-protected scripted source installed before the goroutines start, MnemonicToSeed, Language.String, unsupported languages), GOMAXPROCS in {1,2,4,16}, a third of the processes preceded by a short sequential history of failing and odd calls (failing randomness sources, invalid sizes, unsupported languages), half of the processes with simultaneous first uses and half with staggered late first users; plus stress processes in which 8-16 goroutines repeat a small shared pool of calls 120-4000 times (the same sentence validated under its own language and queried under another, identical seed arguments, the same entropy under several languages, the same unsupported Language values), every distinct observation of which is compared with the reference; oracles: Go race detector (reports read from log files, de-duplicated by stack signature), per-call reference model, exactly-once accounting of shared-source bytes per goroutine, and sequential replay of the same op lists in another fresh process; non-trivial and distinct = distinct (language, cold-overlap degree, goroutine count, staggered) states observed, where the overlap degree is the number of goroutines whose first call on the language began before the first such call returned",
 		"samples":                       smp.List(),
 		"processes":                     obs.Get("processes"),
 		"goroutines":                    goroutines,
